@@ -1139,7 +1139,12 @@ pub fn generate(rs: u64, focus: &str) -> Trace {
             let del_e = EvSpec { id: g.rng.bytes32(), pk: a.pk, kind: 5, at: e1.at + 2, tags: vec![vec!["e".into(), hex(&e1.id)]], content: vec![] };
             let _ = holder_exists;
             let base = QuerySpec::all_allowed();
-            let (question, change): (Op, Op) = match g.rng.below(10) {
+            // (an address of somebody else, same kind and identifier: whatever happens to `a`
+            // must never show there)
+            let other_pk = g.authors.iter().copied().find(|x| *x != a.pk).unwrap_or([0x6b; 32]);
+            let foreign = AddrKey { kind: a.kind, pk: other_pk, d: a.d.clone() };
+            let (question, change): (Op, Op) = match g.rng.below(if focus == "C10" { 14 } else { 11 }) {
+                10 | 11 | 12 | 13 => (Op::AddrDeleted(foreign.clone()), Op::Store(del_a.clone())),
                 0 | 1 => (Op::Holder(a.clone()), Op::Store(e2.clone())),
                 2 => (Op::Holder(a.clone()), Op::Remove(e1.id)),
                 3 => (Op::AddrDeleted(a.clone()), Op::Store(del_a.clone())),
@@ -2235,6 +2240,34 @@ fn state_invariants(store: &Store, base: &Model, recs: &[OpRecord], enc: &BTreeM
                         out.push(("C10", format!("request {} names the address {} of another author and was accepted", short(&d.id), a.label())));
                     }
                 }
+            }
+        }
+    }
+    // a deletion marker on an address that no request of the address's author names at all: whoever
+    // put it there was not entitled to
+    let mut addrs: BTreeSet<AddrKey> = base.addr_universe.clone();
+    let mut requests: Vec<EvSpec> = base.events.values().filter(|e| e.kind == 5).cloned().collect();
+    for r in recs {
+        match &r.op {
+            Op::Store(e) => {
+                if let Some(a) = e.addr() {
+                    let _ = addrs.insert(a);
+                }
+                if e.kind == 5 {
+                    requests.push(e.clone());
+                }
+            }
+            Op::AddrDeleted(a) | Op::Holder(a) => {
+                let _ = addrs.insert(a.clone());
+            }
+            _ => {}
+        }
+    }
+    for a in &addrs {
+        if let Ok(Some(t)) = store.naddr_is_deleted_asof(&real::addr_of(a)) {
+            let named_by_author = requests.iter().any(|d| d.pk == a.pk && d.tags.iter().any(|t| t.len() >= 2 && t[0] == "a" && parse_a_target(&t[1]).map(|x| norm_target(x).0 == *a || parse_a_target(&t[1]).as_ref() == Some(a)).unwrap_or(false)));
+            if !named_by_author {
+                out.push(("C10", format!("the address {} carries a deletion marker (as of {}) although no request of its author names it", a.label(), t.as_u64())));
             }
         }
     }
